@@ -380,8 +380,56 @@ def bool_edges(body, cs):
     return out
 
 
+def _bool_phi_edges(body):
+    """switch edges on a bool local that is assigned only constants (the lowering of `matches!(..)`, `a && b` used as a
+    value): [(edge, [blocks that assign the value selecting this edge])]"""
+    cache = body.__dict__.get('_phi_cache')
+    if cache is not None:
+        return cache
+    out = []
+    for i in body.switches():
+        info = body.switch_info(i)
+        if info['kind'] != 'bool' or info['cond'][0] != 'multi':
+            continue
+        l = info['cond'][1]
+        ds = body.defs().get(l, [])
+        vals = []
+        okc = True
+        for d in ds:
+            if d[0] != 'assign' or d[2]['pl']['p'] or d[2]['rv']['r'] != 'use' or d[2]['rv']['a'][0].get('k') != 'const' or d[2]['rv']['a'][0].get('val') not in ('0', '1'):
+                okc = False
+                break
+            vals.append((d[1], d[2]['rv']['a'][0]['val'] == '1'))
+        if not okc or not vals:
+            continue
+        t = body.blocks[i]['term']
+        for e in [('e', i, str(v)) for v, _ in t['vals']] + [('e', i, 'otherwise')]:
+            bv = body.edge_bool(e)
+            if bv is None:
+                continue
+            if info.get('neg'):
+                pass
+            out.append((e, [blk for blk, v in vals if v == bv]))
+    body.__dict__['_phi_cache'] = out
+    return out
+
+
+def dom(body, a, n, _depth=0):
+    """`a` dominates `n`, also through materialised booleans: taking the `true` edge of `switch tmp` where tmp is set to
+    `true` in exactly one block D implies D was executed, so whatever dominates D semantically dominates n."""
+    if body.dominates(a, n):
+        return True
+    if _depth > 3:
+        return False
+    for e, blks in _bool_phi_edges(body):
+        if len(blks) == 1 and body.dominates(e, n) and e != a:
+            if dom(body, a, ('b', blks[0]), _depth + 1):
+                return True
+    return False
+
+
 def dominated_by_any(body, edges, node):
-    return any(body.dominates(e, node) for e in edges)
+    return any(dom(body, e, node) for e in edges)
 
 
 def success_edge_dominates(body, cs, node):
@@ -788,7 +836,7 @@ def cmp_facts(body):
 
 def facts_dominating(body, node, facts=None):
     facts = facts if facts is not None else cmp_facts(body)
-    return [f for f in facts if body.dominates(f[0], node)]
+    return [f for f in facts if dom(body, f[0], node)]
 
 
 def has_fact(body, node, rel, pa, pb, facts=None, symmetric=None):
